@@ -29,6 +29,7 @@ Record robs := {
   ro_listing : list oent;   (* entities listing, all pages *)
   ro_gets : list gobs;      (* lookups in the dataset, current and point in time *)
   ro_rels : list rel;       (* outgoing and incoming relations of every entity of the pool (sorted) *)
+  ro_merged : list Z;       (* unscoped MERGED lookups of the pool: code of the whole answer, value order included *)
   ro_bad : bool             (* some read of the block failed or panicked (e.g. a change-log entry naming a deleted version) *)
 }.
 
@@ -139,6 +140,46 @@ Definition reads_agree (st : store) (ds : Z) (r : robs) : bool :=
   && negb (ro_bad r).
 
 Definition rels_same (a b : robs) : bool := list_eqb rel_eqb (ro_rels a) (ro_rels b).
+(** observables the model does not compute (relationship queries, merged multi-dataset lookups): compared before/after *)
+Definition rels_dir (inv : Z) (r : robs) : list rel := filter (fun x : rel => Z.eqb (fst (fst x)) inv) (ro_rels r).
+(** The incoming scan keeps ONE deleted flag per referencing entity (finding F03a of C03): when an entity refers to the same
+    target through two predicates its answer depends on which key happens to be the last one, and removing repeated reference
+    keys flips it.  Where the feed read before the compaction shows such an entity, incoming relations are not compared. *)
+Definition ref_pairs (c : content) : list (Z * Z) :=
+  flat_map (fun kv : Z * rval => map (fun t => (fst kv, t)) (rv_tgts (snd kv))) (c_refs c).
+Definition multi_pred_target (f : list oent) : bool :=
+  let l := flat_map (fun ic : oent => map (fun pt => (fst ic, pt)) (ref_pairs (snd ic))) f in
+  existsb (fun a : uri * (Z * Z) =>
+             existsb (fun b : uri * (Z * Z) =>
+                        Z.eqb (fst a) (fst b) && Z.eqb (snd (snd a)) (snd (snd b)) && negb (Z.eqb (fst (snd a)) (fst (snd b)))) l) l.
+Definition unmodelled_same (a b : robs) : bool :=
+  list_eqb rel_eqb (rels_dir 0 a) (rels_dir 0 b)
+  && (multi_pred_target (ro_full a) || list_eqb rel_eqb (rels_dir 1 a) (rels_dir 1 b))
+  && list_eqb Z.eqb (ro_merged a) (ro_merged b).
+
+(** Does the stale comparison base (F12a) make any difference for this entity?  Both passes in lockstep: [ps] = base of
+    the pinned strategy, [pf] = base of the repaired one.  Conservative: "false" only withdraws a prediction. *)
+Definition matched_preds (p v : entry) : list Z :=
+  if Bool.eqb (c_del (en_c p)) (c_del (en_c v)) && negb (Z.eqb (en_time p) (en_time v)) then
+    flat_map (fun kv : Z * rval => match assoc (fst kv) (c_refs (en_c p)) with
+                                   | Some rv' => if rval_eqb rv' (snd kv) && (0 <? Z.of_nat (length (rv_tgts (snd kv)))) then [fst kv] else []
+                                   | None => []
+                                   end) (c_refs (en_c v))
+  else [].
+Fixpoint stale_harmless (eqb : content -> content -> bool) (ps pf : entry) (vs : list entry) : bool :=
+  match vs with
+  | [] => true
+  | v :: vs' =>
+    let es := eqb (en_c ps) (en_c v) in
+    Bool.eqb es (eqb (en_c pf) (en_c v)) &&
+    if es then vkey_eqb (key_of ps) (key_of pf) && stale_harmless eqb ps pf vs'
+    else let ms := matched_preds ps v in
+         list_eqb Z.eqb ms (matched_preds pf v)
+         && stale_harmless eqb (match ms with [] => v | _ => ps end) v vs'
+  end.
+Definition stale_matters (cf : cflags) (eqb : content -> content -> bool) (d : dstate) (order : list uri) : bool :=
+  cf_stale_prev cf &&
+  negb (forallb (fun id => match versions_of d id with [] => true | v :: vs => stale_harmless eqb v v vs end) order).
 
 Definition vkey_pair_eqb (a b : Z * vkey) : bool := Z.eqb (fst a) (fst b) && vkey_eqb (snd a) (snd b).
 Definition vkey_flag_eqb (a b : vkey * bool) : bool := vkey_eqb (fst a) (fst b) && Bool.eqb (snd a) (snd b).
@@ -151,7 +192,8 @@ Definition m_pointers (d : dstate) : list (vkey * bool) :=
                       | None => []
                       end) (latest_keys d).
 
-(** [taint]: an earlier compaction of this run deleted reference keys shared with a kept version (F12c); the reference
+(** [taint]: this or an earlier compaction of the run deleted reference keys shared with a kept version (F12c) or worked
+    with a comparison base that differs from the immediate predecessor in a way that matters (F12a); the reference
     index (not modelled) is damaged from then on, so no prediction is made about relationship queries *)
 Definition agree_op (v : variant) (taint : bool) (st : store) (o : cop) : store * bool * bool :=
   match o with
@@ -166,7 +208,7 @@ Definition agree_op (v : variant) (taint : bool) (st : store) (o : cop) : store 
     let '(st', f) := dup_store v st ds id in (st', Bool.eqb f o_found, taint)
   | CCompact ds thr crash aft race order o_fl o_cr o_ra o_rn before after =>
     let r := compact_store v st ds thr crash aft race order in
-    let taint' := taint || cr_shared r in
+    let taint' := taint || cr_shared r || stale_matters (v_cf v) (compact_eqb (v_fl v)) (get_ds st ds) order in
     (cr_store r,
      reads_agree st ds before
      && Z.eqb (cr_flushes r) o_fl && Bool.eqb (cr_crashed r) o_cr && Bool.eqb (cr_raced r) o_ra
@@ -174,7 +216,7 @@ Definition agree_op (v : variant) (taint : bool) (st : store) (o : cop) : store 
      && reads_agree (cr_store r) ds after
      (* relationship queries are not modelled: "unchanged" is predicted unless the comparison base can be stale (F12a),
         a writer raced, or a committed flush (now or earlier) deleted reference keys shared with a kept version (F12c) *)
-     && (cf_stale_prev (v_cf v) || o_ra || taint' || rels_same before after),
+     && (o_ra || taint' || unmodelled_same before after),
      taint')
   | CRaw ds o_log o_latest o_cons =>
     let d := get_ds st ds in
@@ -212,7 +254,7 @@ Definition spec_op_ok (o : cop) : bool :=
       oents_eqb (osort (ro_latest after)) (osort (ro_latest before))
       && oents_eqb (osort (ro_listing after)) (osort (ro_listing before))
       && list_eqb get_same (ro_gets after) (ro_gets before)
-      && rels_same before after
+      && unmodelled_same before after
       && (if o_cr then oents_eqb (spec_compact (ro_full after)) (spec_compact (ro_full before))
           else oents_eqb (ro_full after) (spec_compact (ro_full before)))
   | _ => true
